@@ -572,6 +572,17 @@ func ruleM7(c *Ctx) {
 						if !ok || info.Uses[id] != fnObj {
 							return true
 						}
+						// only the uses made by the strict / relaxed matchers are this rule's business
+						// (the accumulator matcher applies the same pairs legitimately, under hasAccumulator)
+						inMatcher := false
+						for _, anc := range st2 {
+							if afd, ok := anc.(*ast.FuncDecl); ok && (afd.Name.Name == "matchOperandsStrict" || afd.Name.Name == "matchOperandsRelaxed") {
+								inMatcher = true
+							}
+						}
+						if !inMatcher {
+							return true
+						}
 						uses++
 						// the identifier is the Fun of a call: judge the call expression
 						if len(st2) >= 2 {
